@@ -1,0 +1,11 @@
+//go:build verif
+// +build verif
+
+package bfe_server
+
+import (
+	"github.com/bfenetworks/bfe/bfe_basic"
+)
+
+// VerifSetClientAddr exposes setClientAddr to the out-of-tree verification harness.
+func VerifSetClientAddr(req *bfe_basic.Request) { setClientAddr(req) }
